@@ -1,10 +1,11 @@
-\* exhaustive, generic Composite mode: 3 originals + 2 pool ids, 2 grid cells, depth 4
-CONSTANTS N = 5  NOrig = 3  NLoc = 2  MaxLevel = 5  Typed = FALSE  MaxSet = 2  NBlk = 0  BlkGrid = FALSE
+\* exhaustive, generic Composite mode: 3 originals + 2 pool ids, 2 grid cells, depth 5
+CONSTANTS N = 5  NOrig = 3  NLoc = 2  MaxLevel = 5  Typed = FALSE  MaxSet = 2  NBlk = 0  BlkGrid = FALSE  NGrp = 0  Rx = FALSE  NAsm = 0  Deviant = FALSE  WithOwned = TRUE
 INIT Init
 NEXT Next
 CONSTRAINT Bound
 VIEW View
 INVARIANT TypeOK
+INVARIANT BrokenIsDead
 INVARIANT OneParentListedOnce
 INVARIANT NoDuplicates
 INVARIANT Acyclic
